@@ -155,6 +155,122 @@ def run(case: dict) -> Outcome:
     return out
 
 
+# ------------------------------------------------------------------------------ a long-lived consumer beside a held message
+
+
+@st.composite
+def long_lived_case(draw, broker):
+    """Consumer A took message X once and gave it back; consumer B (same process, same broker object) holds X now.  A then works
+    through a backlog of 1000+ other messages (book-keeping tables roll over, caches are pruned) and finishes.  X must still be
+    exactly where it is: held by B."""
+    return {"broker": broker, "seed": draw(st.integers(0, 2**16)), "n": draw(st.sampled_from([60, 999, 1001, 1040])),
+            "how": draw(st.sampled_from(["reject", "requeue"])), "b_category": "NORMAL",
+            "lat": draw(st.lists(st.sampled_from([0.0, 0.001]), max_size=6))}
+
+
+async def _long_lived(loop, case, out: Outcome):
+    import asyncio
+
+    from harness.brokers import Env, reset_globals
+    from repid import MessageCategory
+    from repid.data._key import RoutingKey
+    from repid.data._parameters import Parameters
+
+    reset_globals()
+    env = Env(case["broker"], loop, case["seed"])
+    conn = env.connection("w0", case["lat"] if case["broker"] != "mem" else None, buckets=False)
+    await conn.connect()
+    b = conn.message_broker
+    await b.queue_declare("ql")
+    xk = RoutingKey(topic="t", queue="ql", priority=5, id_="X")
+    await b.enqueue(xk, "x", Parameters())
+    ca = b.get_consumer("ql", None, None, MessageCategory.NORMAL)
+    await ca.start()
+    cb = None
+
+    async def take(c, patience=1.0):
+        try:
+            return await asyncio.wait_for(c.consume(), timeout=patience)
+        except asyncio.TimeoutError:
+            return None
+
+    got = await take(ca)
+    if got is None or got[0].id_ != "X":
+        out.inconclusive = True
+        await ca.finish()
+        return
+    cb = b.get_consumer("ql", None, 1, MessageCategory.NORMAL)
+    await cb.start()
+    holder = None
+    for _ in range(8):
+        if case["how"] == "reject":
+            await b.reject(got[0])
+        else:
+            await b.requeue(got[0], "x", Parameters())
+        # whoever gets it next: B keeps it, A gives it back once more
+        tb = asyncio.ensure_future(take(cb, 0.8))
+        ta = asyncio.ensure_future(take(ca, 0.8))
+        rb, ra = await asyncio.gather(tb, ta)
+        if rb is not None and ra is not None:
+            out.v("double-delivery", "message X was handed to both consumers at once")
+            return
+        if rb is not None:
+            holder = "B"
+            break
+        if ra is None:
+            out.v("lost", f"message X was returned ({case['how']}) and not delivered again; places "
+                  f"{[p.short() for p in env.probe().get('X', [])]}", broker=case["broker"])
+            return
+        got = ra
+    if holder != "B":
+        out.inconclusive = True
+        await asyncio.gather(ca.finish(), cb.finish())
+        return
+    # B is busy with X: it takes nothing more (a Redis / RabbitMQ consumer would otherwise prefetch part of the backlog)
+    await cb.pause()
+    await asyncio.sleep(0.2)
+    for i in range(case["n"]):
+        await b.enqueue(RoutingKey(topic="t", queue="ql", priority=5, id_=f"n{i}"), "", Parameters())
+    done = 0
+    while done < case["n"]:
+        r = await take(ca, 2.0)
+        if r is None:
+            break
+        if r[0].id_ == "X":
+            out.v("double-delivery", "message X, held by consumer B, was handed to consumer A", broker=case["broker"])
+            return
+        await b.ack(r[0])
+        done += 1
+    if done < case["n"]:
+        out.v("lost", f"only {done} of {case['n']} backlog messages reached consumer A", broker=case["broker"])
+        return
+    await ca.finish()
+    await asyncio.sleep(0.3)
+    kinds = [p.kind for p in env.probe().get("X", [])]
+    if kinds != ["held"]:
+        out.v("held-message-moved", f"after consumer A (which had taken and returned X long ago, then processed {case['n']} other messages) "
+              f"finished, message X - held by consumer B - is in {kinds}", broker=case["broker"], n=case["n"])
+        return
+    await b.ack(xk)
+    await cb.finish()
+    await asyncio.sleep(0.3)
+    left = env.probe().get("X", [])
+    if left:
+        out.v("acked-still-present", f"message X was acknowledged by its holder but is in {[p.short() for p in left]}", broker=case["broker"])
+    out.nontrivial = case["n"] > 1000
+    out.cls("broker-" + case["broker"], f"n-{case['n']}", "how-" + case["how"])
+
+
+def run_long_lived(case: dict) -> Outcome:
+    out = Outcome()
+    try:
+        vclock.run(lambda loop: _long_lived(loop, case, out), max_steps=6_000_000)
+    except (vclock.StepLimit, vclock.Deadlock) as e:
+        out.inconclusive = True
+        out.info["watchdog"] = str(e)
+    return out
+
+
 def _s(broker):
     return lambda: history(broker)
 
@@ -261,6 +377,9 @@ CHECK = Check(
         SubCheck("mem", _s("mem"), run, quick=120, thorough=3000),
         SubCheck("redis", _s("redis"), run, quick=80, thorough=2000),
         SubCheck("amqp", _s("amqp"), run, quick=80, thorough=2000),
+        SubCheck("long-lived-mem", lambda: long_lived_case("mem"), run_long_lived, quick=2, thorough=60),
+        SubCheck("long-lived-redis", lambda: long_lived_case("redis"), run_long_lived, quick=2, thorough=60),
+        SubCheck("long-lived-amqp", lambda: long_lived_case("amqp"), run_long_lived, quick=3, thorough=80),
         SubCheck("cancel-mem", cancel_strategy("mem"), run_cancel, quick=40, thorough=0, enumerate_cases=enumerate_cancel("mem"), exhaustive=True),
         SubCheck("cancel-redis", cancel_strategy("redis"), run_cancel, quick=40, thorough=0, enumerate_cases=enumerate_cancel("redis"), exhaustive=True),
         SubCheck("cancel-amqp", cancel_strategy("amqp"), run_cancel, quick=40, thorough=0, enumerate_cases=enumerate_cancel("amqp"), exhaustive=True),
